@@ -263,4 +263,127 @@ def newPayload (T : List Cmd) (name : String) (data : Bytes) : Except String Byt
       | some n => .ok (data.take n)
       | none => .error "BufferTooShort"
 
+/-! ## Building commands: what a builder must produce
+
+A payload is viewed as one little-endian number; setting a field replaces exactly the bits of that
+field.  Out-of-range values are refused by the setters documented as fallible (`Result`) and reduced
+modulo the field width by the others. -/
+
+/-- little-endian octets of `v`, `n` of them -/
+def toLe : Nat → Nat → Bytes
+  | 0, _ => []
+  | n + 1, v => (v % 256) :: toLe n (v / 256)
+
+/-- replace the `w`-bit field at bit `lo` of `N` by `v mod 2^w`; every other bit of `N` is kept -/
+def setField (N lo w v : Nat) : Nat := N - (N / 2 ^ lo % 2 ^ w) * 2 ^ lo + (v % 2 ^ w) * 2 ^ lo
+
+def setFieldBytes (p : Bytes) (lo w v : Nat) : Bytes := toLe p.length (setField (leValue p) lo w v)
+
+/-- argument of a setter -/
+inductive Arg where
+  | n (v : Nat)
+  | i (v : Int)
+  | bytes (b : Bytes)
+  | item (id : Nat) (addr : Bytes)
+  deriving Repr, DecidableEq
+
+inductive Policy where
+  /-- fallible setter: a value that does not fit the field is refused with this error, nothing changes -/
+  | refuse (err : String)
+  /-- infallible setter: the value is reduced modulo the field width -/
+  | mask
+  deriving Repr, DecidableEq
+
+/-- (command, setter, first bit, width, policy) for every setter that writes one numeric/octet-string field -/
+def fieldSetters : List (String × String × Nat × Nat × Policy) := [
+  ("LinkCheckAns", "set_margin", 0, 8, .mask), ("LinkCheckAns", "set_gateway_count", 8, 8, .mask),
+  ("LinkADRReq", "set_data_rate", 4, 4, .refuse "InvalidDataRate"), ("LinkADRReq", "set_tx_power", 0, 4, .refuse "InvalidTxPower"),
+  ("LinkADRReq", "set_channel_mask", 8, 16, .mask), ("LinkADRReq", "set_redundancy", 24, 8, .mask),
+  ("LinkADRAns", "set_channel_mask_ack", 0, 1, .mask), ("LinkADRAns", "set_data_rate_ack", 1, 1, .mask),
+  ("LinkADRAns", "set_tx_power_ack", 2, 1, .mask),
+  ("DutyCycleReq", "set_max_duty_cycle", 0, 4, .refuse "MaxDutyCycleOutOfRange"),
+  ("RXParamSetupReq", "set_dl_settings", 0, 8, .mask), ("RXParamSetupReq", "set_frequency", 8, 24, .mask),
+  ("RXParamSetupAns", "set_channel_ack", 0, 1, .mask), ("RXParamSetupAns", "set_rx2_data_rate_ack", 1, 1, .mask),
+  ("RXParamSetupAns", "set_rx1_data_rate_offset_ack", 2, 1, .mask),
+  ("DevStatusAns", "set_battery", 0, 8, .mask),
+  ("NewChannelReq", "set_channel_index", 0, 8, .mask), ("NewChannelReq", "set_frequency", 8, 24, .mask),
+  ("NewChannelReq", "set_data_rate_range", 32, 8, .mask),
+  ("NewChannelAns", "set_channel_frequency_ack", 0, 1, .mask), ("NewChannelAns", "set_data_rate_range_ack", 1, 1, .mask),
+  ("RXTimingSetupReq", "set_delay", 0, 4, .refuse "DelayOutOfRange"),
+  ("TXParamSetupReq", "set_downlink_dwell_time", 5, 1, .mask), ("TXParamSetupReq", "set_uplink_dwell_time", 4, 1, .mask),
+  ("TXParamSetupReq", "set_max_eirp", 0, 4, .refuse "MaxEirpOutOfRange"),
+  ("DlChannelReq", "set_channel_index", 0, 8, .mask), ("DlChannelReq", "set_frequency", 8, 24, .mask),
+  ("DlChannelAns", "set_channel_frequency_ack", 0, 1, .mask), ("DlChannelAns", "set_uplink_frequency_exists_ack", 1, 1, .mask),
+  ("DeviceTimeAns", "set_seconds", 0, 32, .mask),
+  ("DutVersionsAns", "set_versions_raw", 0, 96, .mask), ("RxAppCntAns", "set_rx_app_cnt", 0, 16, .mask),
+  ("PackageVersionAns", "package_identifier", 0, 8, .mask), ("PackageVersionAns", "package_version", 8, 8, .mask),
+  ("McGroupStatusReq", "req_group_mask", 0, 4, .mask),
+  ("McGroupSetupReq", "mc_group_id_header", 0, 8, .mask), ("McGroupSetupReq", "mc_addr", 8, 32, .mask),
+  ("McGroupSetupReq", "min_mc_fcount", 168, 32, .mask), ("McGroupSetupReq", "max_mc_fcount", 200, 32, .mask),
+  ("McGroupSetupAns", "mc_group_id_header", 0, 2, .mask), ("McGroupDeleteReq", "mc_group_id_header", 0, 2, .mask),
+  ("McGroupDeleteAns", "mc_group_id_header", 0, 2, .mask), ("McGroupDeleteAns", "mc_group_undefined", 2, 1, .mask),
+  ("McGroupStatusAns", "nb_total_groups", 4, 3, .mask)]
+
+/-- one setter call on the payload `p` of command `name`: the outcome (`none` = accepted, `some e` = refused)
+and the payload afterwards; `wrapKey` is the block operation the server applies to the McKey
+(`aes128_decrypt(McKEKey, ·)`, abstract) -/
+def applySetter (wrapKey : Bytes → Bytes) (name : String) (p : Bytes) (setter : String) (a : Arg) : Option (Option String × Bytes) :=
+  match name, setter, a with
+  | "DevStatusAns", "set_margin", .i m =>
+    -- SNR is a 6-bit signed integer, -32..31
+    if -32 ≤ m ∧ m ≤ 31 then some (none, setFieldBytes p 8 6 (m % 64).toNat) else some (some "MarginOutOfRange", p)
+  | "DeviceTimeAns", "set_nano_seconds", .n v =>
+    -- fractional second in 1/256 s = 3906250 ns steps
+    if v ≤ 1000000000 then some (none, setFieldBytes p 32 8 (v / 3906250)) else some (some "NanoSecondsOutOfRange", p)
+  | "McGroupStatusReq", "req_group", .n v =>
+    let k := v % 4
+    some (none, if field p k 1 = 1 then p else setFieldBytes p k 1 1)
+  | "McGroupSetupReq", "mc_key", .bytes k => some (none, setFieldBytes p 40 128 (leValue (wrapKey k)))
+  | "EchoIncPayloadAns", "payload", .bytes b =>
+    -- the answer echoes the request payload with every octet incremented (at most 241 octets fit)
+    some (none, (b.take 241).map (fun x => (x + 1) % 256))
+  | "McGroupStatusAns", "push", .item id addr =>
+    let p := if p = [] then [0] else p
+    if id ≥ 4 ∨ field p id 1 = 1 then some (some "InvalidIndex", p)
+    else some (none, setFieldBytes p id 1 1 ++ (id :: addr))
+  | _, _, _ =>
+    match fieldSetters.find? (fun s => s.1 == name && s.2.1 == setter) with
+    | none => none
+    | some (_, _, lo, w, pol) =>
+      let p := if name = "McGroupStatusAns" ∧ p = [] then [0] else p
+      let v? : Option Nat := match a with
+        | .n v => some v
+        | .bytes b => some (leValue b)
+        | _ => none
+      match v? with
+      | none => none
+      | some v =>
+        match pol with
+        | .mask => some (none, setFieldBytes p lo w v)
+        | .refuse e => if v < 2 ^ w then some (none, setFieldBytes p lo w v) else some (some e, p)
+
+/-- the payload of a freshly created command: all zero (`n` octets; the two growing answers start empty,
+the McGroupStatusAns status octet appears with the first setter and is part of every built answer) -/
+def freshPayload (c : Cmd) : Bytes :=
+  match c.plen with
+  | .fixed n => List.replicate n 0
+  | .toEnd => []
+  | .groupStatus => [0]
+
+/-- build: fresh payload, the calls in order, `cid ‖ payload` -/
+def build (wrapKey : Bytes → Bytes) (c : Cmd) (calls : List (String × Arg)) : Option (List (Option String) × Bytes) :=
+  let r := calls.foldl (fun (acc : Option (List (Option String) × Bytes)) call =>
+    match acc with
+    | none => none
+    | some (rs, p) =>
+      match applySetter wrapKey c.name p call.1 call.2 with
+      | none => none
+      | some (r, p') => some (rs ++ [r], p')) (some ([], freshPayload c))
+  r.map (fun (rs, p) => (rs, c.cid :: p))
+
+/-- a sequence of built commands written into a buffer of `cap` octets: the concatenation, or refusal when it does not fit -/
+def buildSeq (cmds : List Bytes) (cap : Nat) : Option Bytes :=
+  let all := cmds.flatten
+  if all.length ≤ cap then some all else none
+
 end Spec.MacCmd
